@@ -16,8 +16,11 @@ VERIF = Path(__file__).resolve().parent.parent
 REPO = Path(os.environ.get("VERIF_REPO", "/repo"))
 LEAN = VERIF / "lean"
 BUILD = VERIF / "build"
-EVIDENCE = VERIF / "evidence"
-REPLAYS = VERIF / "replays"
+# evidence/ and replays/ describe /repo itself; a run against any other tree (seeded / benign changes in scratch
+# worktrees, VERIF_REPO=...) keeps its records apart so that the committed evidence is never overwritten by it
+_OTHER_TREE = REPO.resolve() != Path("/repo").resolve()
+EVIDENCE = (BUILD / "other_tree" / "evidence") if _OTHER_TREE else VERIF / "evidence"
+REPLAYS = (BUILD / "other_tree" / "replays") if _OTHER_TREE else VERIF / "replays"
 KNOWN = VERIF / "known_findings.txt"
 PY = "/venv/bin/python"
 ALLOWED_AXIOMS = {"propext", "Classical.choice", "Quot.sound"}
@@ -270,7 +273,7 @@ def known_findings(prop):
 # ---- evidence -----------------------------------------------------------------
 
 def write_evidence(prop, tier, seed, coverage, wall_s, violations=0, assumptions=None, level="proof"):
-    EVIDENCE.mkdir(exist_ok=True)
+    EVIDENCE.mkdir(parents=True, exist_ok=True)
     d = {
         "property_id": prop,
         "tier": tier,
@@ -287,7 +290,7 @@ def write_evidence(prop, tier, seed, coverage, wall_s, violations=0, assumptions
 
 
 def write_replay(prop, seed, payload):
-    REPLAYS.mkdir(exist_ok=True)
+    REPLAYS.mkdir(parents=True, exist_ok=True)
     p = REPLAYS / ("%s-%s.json" % (prop, seed))
     p.write_text(json.dumps(payload, indent=1, default=str) + "\n")
     return p.relative_to(VERIF)
